@@ -1,0 +1,19 @@
+//go:build verif
+
+package factory
+
+import (
+	"context"
+
+	"github.com/projecteru2/core/engine"
+	"github.com/projecteru2/core/types"
+)
+
+// VerifEngineFactory is the constructor signature used by the engine registry.
+type VerifEngineFactory = func(ctx context.Context, config types.Config, nodename, endpoint, ca, cert, key string) (engine.API, error)
+
+// VerifRegisterEngine registers an engine constructor for endpoints starting with
+// prefix (build tag `verif` only; call before any node with such an endpoint is used).
+func VerifRegisterEngine(prefix string, f VerifEngineFactory) {
+	engines[prefix] = f
+}
